@@ -9,6 +9,9 @@ IDENTITY_SIG = ("identity Identity::op keeps a change answering UnexpectedState 
                 "that is pruned later (forged signature): history with the pruned sibling != history without it")
 
 
+RF_CLASSES = [f"rf.{c}.{r}" for c in ("redactMissing", "editMissing", "reactMissing", "replyMissing", "badTitle") for r in "dg"] + ["rf.label.g"]
+
+
 def compact(c):
     return f"deps={json.dumps(c['deps'], separators=(',', ':'))} ts={json.dumps(c['ts'], separators=(',', ':'))} cls={','.join(c['cls'])}"
 
@@ -46,6 +49,11 @@ def run(ctx):
     needs_drop = sum(1 for c in allc if any(c["cls"][k - 1] == "needs" and k in c["rej"] for k in range(1, c["m"] + 1)))
     if not (pruned_valid and needs_kept and needs_drop and any(not c["rej"] for c in allc)):
         raise vlib.ToolError("vacuous case set")
+    # every refused single action (cause x author role) must occur, with valid changes evaluated
+    # after it (so that a leaked effect would be visible next to surviving ones)
+    for rf in RF_CLASSES:
+        if not any(rf in c["cls"] and len(c["hist"]) > 1 for c in allc):
+            raise vlib.ToolError(f"vacuous case set: class {rf} never occurs next to surviving changes")
 
     # 2. Sanity (thorough; the soft variant below guards the quick tier against vacuity): the
     #    in-place application of the code as found must be rejected by TLC, and so must the
@@ -59,6 +67,12 @@ def run(ctx):
                       label="sanity: leaving detached changes in the graph (DropDetached = FALSE, the code as found) must violate the theorems")
         if det.violated != "TheoremsHold":
             raise vlib.ToolError("sanity run: the model that keeps detached changes was not rejected by TLC")
+    # the "fast path" deviation (a single-action change applied in place): a refused edit of a
+    # missing comment by a delegate leaves its timeline entry -- TLC must reject it
+    fast = ctx.tlc("MCCob", "MCCob_fast_dev.cfg", workers=2, timeout=300, coverage=False, count=False,
+                   label="sanity: single-action changes applied in place (SingleInPlace = TRUE) must violate the theorems")
+    if fast.violated != "TheoremsHold":
+        raise vlib.ToolError("sanity run: the single-action fast-path model was not rejected by TLC")
     # ... and so is the Identity::op leniency towards concurrent changes (open finding, see 5.)
     soft = ctx.tlc("MCCob", "MCCob_soft.cfg", workers=2, timeout=300, coverage=False, count=False,
                    label="identity objects: UnexpectedState ignored when a concurrent change exists -- TLC finds the C06 counterexample")
@@ -67,15 +81,23 @@ def run(ctx):
 
     # 3. spec -> implementation.
     inter = lambda cs: [c for c in cs if c["rej"]]
+    patchable = lambda cs: [c for c in cs if "rf.badTitle.d" not in c["cls"]]   # patches do not validate titles
     detc = [c for c in cases[-1] if any(len(d) == 0 for d in c["deps"])]
     if not detc:
         raise vlib.ToolError("no case with a detached change")
+    # every refused single action is represented in every sample (stratified part)
+    def strat(cs, n):
+        out = []
+        for rf in RF_CLASSES:
+            pool = [c for c in cs if rf in c["cls"] and len(c["hist"]) > 1]
+            out += rnd.sample(pool, min(n, len(pool)))
+        return out
     if thorough:
-        todo = [("issue", rnd.sample(cases[0], 24000) + rnd.sample(cases[1], 10000) + detc),
-                ("patch", rnd.sample(inter(cases[0]), 4000) + rnd.sample(inter(cases[1]), 2000) + rnd.sample(detc, 300))]
+        todo = [("issue", strat(cases[0], 400) + rnd.sample(cases[0], 24000) + rnd.sample(cases[1], 10000) + detc),
+                ("patch", strat(patchable(cases[0]), 100) + rnd.sample(patchable(inter(cases[0])), 4000) + rnd.sample(patchable(inter(cases[1])), 2000) + rnd.sample(detc, 300))]
     else:
-        todo = [("issue", rnd.sample(inter(cases[0]), 1500) + rnd.sample(cases[0], 300) + rnd.sample(detc, 250)),
-                ("patch", rnd.sample(inter(cases[0]), 400) + rnd.sample(detc, 60))]
+        todo = [("issue", strat(cases[0], 60) + rnd.sample(inter(cases[0]), 1200) + rnd.sample(cases[0], 200) + rnd.sample(detc, 200)),
+                ("patch", strat(patchable(cases[0]), 15) + rnd.sample(patchable(inter(cases[0])), 300) + rnd.sample(detc, 60))]
     drift = 0
     nontrivial = 0
     for kind, cs in todo:
@@ -85,7 +107,7 @@ def run(ctx):
                    timeout=3000 if thorough else 900)
         recs = ctx.read_ndjson(out)
         summary = [r for r in recs if r.get("summary")][0]
-        if summary["graphs"] != len(cs):
+        if summary["graphs"] + summary.get("skipped", 0) != len(cs) or summary.get("skipped", 0):
             raise vlib.ToolError(f"replay {kind}: {summary['graphs']} graphs replayed, {len(cs)} expected")
         for r in recs:
             if r.get("summary"):
